@@ -5,7 +5,7 @@ sys.path.insert(0, os.path.dirname(os.path.abspath(__file__)))
 import props as P
 
 ALL = [f"C{i:02d}" for i in range(1, 21)]
-hooks_commits = ["c2163e8"]
+hooks_commits = ["c2163e8", "3abca66"]
 checks = []
 for pid in ALL:
     if pid not in P.PROPS:
